@@ -44,6 +44,7 @@ func init() {
 		RuleK8(r, c)
 		RuleG1(r, p)
 		RuleTransport(r, p, aspectSet{"A2d": true})
+		RuleFilter(r, p, aspectSet{"F1": true})
 	}
 
 	checks["C02"] = func(r *Report, p *Program, tier string) {
@@ -62,6 +63,7 @@ func init() {
 		RuleK5(r, c)
 		RuleK9(r, c)
 		RuleK10(r, p)
+		RuleK10c(r, c)
 		RuleListenSibling(r, p)
 	}
 
@@ -78,7 +80,7 @@ func init() {
 		RuleLayout(r, c, aspectSet{"L5": true})
 		RuleRegistry(r, c, []string{"responses"}, aspectSet{"L6": true})
 		RuleAPI(r, p, declareAPI(r, []string{"A0", "A3"}, map[string]int{"A3": 60, "A0": 0}), nil)
-		RuleTransport(r, p, aspectSet{"T5": true})
+		RuleTransport(r, p, aspectSet{"T5": true, "T11": true})
 	}
 
 	checks["C04"] = func(r *Report, p *Program, tier string) {
@@ -89,6 +91,7 @@ func init() {
 			return
 		}
 		RulePanic(r, p, tier, wireReachableTypes(p))
+		RuleAPI(r, p, declareAPI(r, []string{"A0"}, map[string]int{"A0": 32}), nil)
 		RuleLayout(r, c, aspectSet{"L2": true, "L3": true})
 		RuleK11(r, c)
 		ruleNilMapsDecl(r, p)
